@@ -875,16 +875,7 @@ pub fn compare_axis(exp: &Rendered, orig: &Rendered, got: &str, dead_label: &str
         return None;
     }
     let detail = format!("expected {:?}, got {:?} (first divergence: expected token {:?}, got token {:?})", exp.text, got, et.get(i).map(|t| &t.text), gt.get(j).map(|t| &t.text));
-    if let Some(qi) = skipped_quoted {
-        // a quoted qualifier was waived earlier and the formula diverges after it: the library is known to lose
-        // everything behind an apostrophe, so the damage cannot be told apart from that
-        let tag = exp.owner(et[qi].start).and_then(|p| p.leaf).and_then(|li| match &exp.leaves[li] {
-            Leaf::Ref(r) => r.q.tag(),
-            Leaf::RefErr(q, _) => q.tag(),
-            _ => None,
-        });
-        return Some(Damage { symptom: "quoted-sheet:rest-of-formula-lost".into(), tags: vec![tag.unwrap_or("q-quoted-space")], detail });
-    }
+    let _ = skipped_quoted;
     if i == et.len() {
         // the library appended something
         let tag = exp.pieces.last().map(|p| p.tag).unwrap_or("formula");
